@@ -10,7 +10,7 @@
 //@ region lifecycle_specs props=C14,C15,C06
 impl AdditionalLifecycleEventsSet {
     /// abstract view: the sequence of registration tokens that drives before_sleep / before_handle_events
-    pub closed spec fn view(&self) -> Seq<RegistrationToken> { self.values@ }
+    pub(crate) open spec fn view(&self) -> Seq<RegistrationToken> { self.values@ }
 }
 //@ endregion
 
@@ -56,6 +56,12 @@ impl AdditionalLifecycleEventsSet {
     spec fn w_deferred(&self) -> bool;
     /// process_events(readiness, token, ..) was called
     spec fn w_processed(&self, readiness: Readiness, token: Token) -> bool;
+    /// before_sleep() was called (and returned without error)
+    spec fn w_before_sleep(&self) -> bool;
+    /// before_sleep() returned the synthetic event (readiness, token)
+    spec fn w_synthetic(&self, readiness: Readiness, token: Token) -> bool;
+    /// before_handle_events(it) was called with an iterator filtered for registration token t over the events ev
+    spec fn w_before_handle_events(&self, t: RegistrationToken, ev: Seq<crate::sys::PollEvent>) -> bool;
 //@ endregion
 //@ item src/sources/mod.rs / trait EventDispatcher / fn process_events props=C14,C02 ret=r
 //@ spec
@@ -110,9 +116,15 @@ impl AdditionalLifecycleEventsSet {
             r == Ok::<bool, crate::Error>(true) ==> self.w_unregistered(registration_token),
             r == Ok::<bool, crate::Error>(false) ==> self.w_deferred(),
 //@ enditem
-//@ item src/sources/mod.rs / trait EventDispatcher / fn before_sleep props=C14
+//@ item src/sources/mod.rs / trait EventDispatcher / fn before_sleep props=C14,C12 ret=r
+//@ spec
+        ensures
+            r is Ok ==> self.w_before_sleep(),
+            r matches Ok(Some(ev)) ==> self.w_synthetic(ev.0, ev.1),
 //@ enditem
 //@ item src/sources/mod.rs / trait EventDispatcher / fn before_handle_events props=C14
+//@ spec
+        ensures self.w_before_handle_events(events.reg(), events.rest()),
 //@ enditem
 //@ close
 
@@ -130,6 +142,9 @@ impl AdditionalLifecycleEventsSet {
     open spec fn w_unregistered(&self, t: RegistrationToken) -> bool { true }
     open spec fn w_deferred(&self) -> bool { true }
     open spec fn w_processed(&self, readiness: Readiness, token: Token) -> bool { true }
+    open spec fn w_before_sleep(&self) -> bool { true }
+    open spec fn w_synthetic(&self, readiness: Readiness, token: Token) -> bool { true }
+    open spec fn w_before_handle_events(&self, t: RegistrationToken, ev: Seq<crate::sys::PollEvent>) -> bool { true }
 //@ endregion
 //@ item src/sources/mod.rs / impl EventDispatcher<Data> for RefCell<DispatcherInner<S, F>> / fn process_events props=C14 sigonly
 //@ enditem
